@@ -2,7 +2,8 @@
 (* Bounded instance for C10 (and the layer-count clause of C20). *)
 EXTENDS Prt, Rand
 CONSTANTS Seed, NRand
-VARIABLES done
+VARIABLES fam, par
+vars == <<fam, par>>
 Pal(k) == [i \in 1..256 |-> <<(i + k) % 256, (2 * i) % 256, (510 - i) % 256, k % 256>>]
 L(k) == <<k % 256, 0, 7, k % 256, 1, 0, 255, 255>>
 F(n, o1, o2, extra) == [n1 |-> n, o1 |-> o1, n2 |-> 5, o2 |-> o2, opt |-> <<11, 12, 13, 14>>, layers |-> [i \in 1..(n + extra) |-> L(i)]]
@@ -30,21 +31,27 @@ RAnim(r, a) == [u1 |-> [j \in 1..4 |-> RB(r, 80, a * 4 + j)], rect |-> [j \in 1.
 RValue(r) == LET np == Below(RS(r), 1, 0, 3) IN
   [palettes |-> [k \in 1..np |-> RPal(r, k)], images |-> IF np = 0 THEN <<>> ELSE [i \in 1..Below(RS(r), 2, 0, 5) |-> RImg(r, i, np)],
    anims |-> [a \in 1..Below(RS(r), 3, 0, 4) |-> RAnim(r, a)], unknownCount |-> Below(RS(r), 4, 0, 60000)]
-Init == done = FALSE
-Next == /\ ~done /\ done' = TRUE
-        /\ \A np \in 0..2 : \A ni \in 0..2 : \A fs \in 1..Len(FrameSets) : \A na \in 0..2 : \A nunk \in 0..2 :
-             (np > 0 \/ ni = 0) =>
-             LET imgs == [i \in 1..ni |-> Img(i * 3, TRUE, (i - 1) % np)]
-                 anims == [a \in 1..na |-> Anim(FrameSets[((fs + a) % Len(FrameSets)) + 1], (nunk + a) % 3)]
-                 v == V(np, imgs, anims)
-             IN /\ Assert(RulesHold(v), "rules")
-                /\ Emit(<<"rt", np, ni, fs, na, nunk>>, << RT(v, PaletteHeaderCanon), RT(v, PaletteHeaderWith(6, 9, 1022)), WriteCase(v) >>)
-        /\ \A r \in 1..NRand : LET v == RValue(r) IN
-             /\ Assert(RulesHold(v), "random value satisfies the rules")
-             /\ Emit(<<"rand", Seed, r>>, << RT(v, PaletteHeaderCanon), WriteCase(v) >>)
-        \* rule violations must be refused by the writer: wrong scan line, palette index out of range, layer list vs count
-        /\ Emit(<<"bad-scan">>, << WriteCase(V(1, << Img(5, FALSE, 0) >>, <<>>)) >>)
-        /\ Emit(<<"bad-pal">>, << WriteCase(V(1, << Img(5, TRUE, 1) >>, <<>>)), WriteCase(V(0, << Img(5, TRUE, 0) >>, <<>>)) >>)
-        /\ \A n \in {0, 1, 2, 126, 127} : \A extra \in {1, 2, 128, 256, 512} : Emit(<<"bad-layers", n, extra>>, << WriteCase(V(0, <<>>, << Anim(<< F(n, 0, 0, extra) >>, 0) >>)) >>)
-Spec == Init /\ [][Next]_done
+\* ---- one TLC state per case; the cross-field rules and the encode/decode laws are INVARIANTs over the state's value --------------------
+Init == \/ fam = "rt" /\ par \in {<<np, ni, fs, na, nunk>> : np \in 0..2, ni \in 0..2, fs \in 1..Len(FrameSets), na \in 0..2, nunk \in 0..2} /\ (par[1] > 0 \/ par[2] = 0)
+        \/ fam = "rand" /\ par \in {<<r>> : r \in 1..NRand}
+        \/ fam = "bad-scan" /\ par = <<>>
+        \/ fam = "bad-pal" /\ par \in {<<1>>, <<0>>}
+        \/ fam = "bad-layers" /\ par \in {<<n, extra>> : n \in {0, 1, 2, 126, 127}, extra \in {1, 2, 128, 256, 512}}
+Next == UNCHANGED vars
+Spec == Init /\ [][Next]_vars
+Value == CASE fam = "rt" -> LET np == par[1]  ni == par[2]  fs == par[3]  na == par[4]  nunk == par[5] IN
+                            V(np, [i \in 1..ni |-> Img(i * 3, TRUE, (i - 1) % np)], [a \in 1..na |-> Anim(FrameSets[((fs + a) % Len(FrameSets)) + 1], (nunk + a) % 3)])
+           [] fam = "rand" -> RValue(par[1])
+           [] fam = "bad-scan" -> V(1, << Img(5, FALSE, 0) >>, <<>>)
+           [] fam = "bad-pal" -> V(par[1], << Img(5, TRUE, par[1]) >>, <<>>)
+           [] OTHER -> V(0, <<>>, << Anim(<< F(par[1], 0, 0, par[2]) >> , 0) >>)
+\* the good families satisfy the cross-field rules, the bad ones violate them (so that the writer's refusal is really exercised)
+RulesAsIntended == RulesHold(Value) <=> fam \in {"rt", "rand"}
+\* the header totals equal the contents, and the encoding has the length the layout description implies
+TotalsMatch == LET e == Encode(Value) IN Len(e) >= 8 + 1048 * Len(Value.palettes) + 4 + 20 * Len(Value.images) + 16
+EncodingDeterminedByValue == Encode(Value) = EncodeWith(Value, PaletteHeaderCanon)
+NonCanonicalHeaderSameLength == Len(EncodeWith(Value, PaletteHeaderWith(6, 9, 1022))) = Len(Encode(Value))
+Export == CASE fam = "rt" -> Emit(<<"rt", par>>, << RT(Value, PaletteHeaderCanon), RT(Value, PaletteHeaderWith(6, 9, 1022)), WriteCase(Value) >>)
+            [] fam = "rand" -> Emit(<<"rand", Seed, par>>, << RT(Value, PaletteHeaderCanon), WriteCase(Value) >>)
+            [] OTHER -> Emit(<<fam, par>>, << WriteCase(Value) >>)
 ====
